@@ -8,6 +8,8 @@
                                refuses never reaches the rules of this property)
      events                    every event the application got for this stream,
                                in order: [t |-> "H" | "P" | "D", hs, n, end]
+     bp                        a PUSH_PROMISE block had to wait for the peer's QPACK
+                               encoder stream (model: clauses abstain)
      close                     error code of QuicConnection.close, 0 = not closed
      raised                    exception that escaped handle_event, "" = none
 
@@ -50,7 +52,9 @@ FirstBroken(e) ==
 BrokenHow(e, b) ==
   IF b <= Len(e.frames) /\ HeadersBroken(e.role, StateAt(e.role, e.frames, b - 1), e.frames[b])
   THEN LET k == KindOf(e.role, StateAt(e.role, e.frames, b - 1), e.frames[b]) IN k \o ":" \o BrokenRule(k, e.frames[b].hs)
-  ELSE "content-length-mismatch"
+  ELSE LET s == StateAt(e.role, e.frames, Len(e.frames)) IN
+       "content-length-mismatch:" \o (IF \A d \in s.declared : s.body > d THEN "body-longer"
+                                      ELSE IF \A d \in s.declared : s.body < d THEN "body-shorter" ELSE "body-between")
 
 HPEvents(e) == SelectSeq(e.events, IsHP)
 \* kind of the j-th header event: what the application takes it for
@@ -118,10 +122,11 @@ Clauses(e) ==
      \* ... and closes the connection with the HTTP/3 message error
      <<"broken-not-message-error:" \o how, b # 0 => e.close = H3_MESSAGE_ERROR>>,
      \* when a stream ends, a declared content-length equals the body delivered
-     <<"ended-content-length-mismatch", EndSeen(e) => ~CertainMismatch(Declared(FirstSeen(e)), LooseDeclared(FirstSeen(e)), Delivered(e))>>,
+     <<"ended-content-length-mismatch:" \o (IF \A d \in Declared(FirstSeen(e)) : Delivered(e) > d THEN "body-longer" ELSE "body-shorter"),
+       EndSeen(e) => ~CertainMismatch(Declared(FirstSeen(e)), LooseDeclared(FirstSeen(e)), Delivered(e))>>,
      \* not part of the statement
      <<"model:raised", e.raised = "">>,
-     <<"model:outcome", ModelOutcome(e)>> >>
+     <<"model:outcome", e.bp \/ ModelOutcome(e)>> >>
 
 TInit == l = 1
 TNext == Judge(Clauses)
